@@ -10,7 +10,8 @@ CONSTANTS
   InitCaps <- IInitCaps
   Addl <- IAddl
   Ops <- IOps
-  MaxWord = 2
+  MaxWord = 1
+  Letters = {"n", "b", "s1", "s2", "r1", "r2"}
 VIEW DumpView
 ACTION_CONSTRAINT Emit
 CHECK_DEADLOCK FALSE
